@@ -253,6 +253,52 @@ theorem get_odesys_accepts (cfg : Cfg) (sys : Sys) (hnd : sys.subst.Nodup) (hsub
     (hpy : cfg.pyNums = false) : ∃ o, buildRhs cfg sys = .ok o :=
   buildRhs_accepts cfg sys hnd hsub hne hnc hspecies hpart hsubs htime hval hpy
 
+/-- **Necessary conditions of acceptance** (the converse side of `get_odesys_accepts`): whenever `get_odesys` accepts, the
+    system has at least one reaction, every substitution key is a parameter key or a unique key of the rate model, no substance
+    key is an exposed parameter name, `'time'` is neither a substance nor a parameter name, every rate constant has a value
+    or a symbol, and every key the CSTR block reads is defined.  (Together with `get_odesys_accepts` this brackets the accepted
+    set; the two sides differ only in the name-capture cases and the Python-number right-hand sides.) -/
+theorem get_odesys_accepted_implies (cfg : Cfg) (sys : Sys) (o : OdeSys) (h : buildRhs cfg sys = .ok o) :
+    sys.rxns ≠ [] ∧
+    (∀ kv ∈ cfg.subs, kv.1 ∈ cstrKeys (cstrOf cfg.cstr sys.subst) ∨ kv.1 ∈ oriUk sys.rxns) ∧
+    (∀ n ∈ sys.subst, n ∉ o.paramNames) ∧ "time" ∉ sys.subst ∧ "time" ∉ o.paramNames ∧
+    (∀ r ∈ sys.rxns, (resolve (mkVars sys.subst o.paramNames cfg.subs) r.param).isSome = true ∧
+      ∀ j ∈ dkeys r.reac, dmem (mkVars sys.subst o.paramNames cfg.subs) j = true) ∧
+    (∀ k ∈ cstrNeeded (cstrOf cfg.cstr sys.subst), dmem (mkVars sys.subst o.paramNames cfg.subs) k = true) := by
+  obtain ⟨h1, h2, h3, h4, h5, rs, exprs, hrs, hneed, _, ho⟩ := buildRhs_ok h
+  subst ho
+  exact ⟨h1, h2, h3, h4, h5, (resolveAll_spec (R := ℚ) _ (fun _ => 0) "" sys.rxns rs hrs).2.2, hneed⟩
+
+/-- **When `_create_odesys` accepts** (default symbols; success characterisation for `rhs'_is_kinetic_model`,
+    `builders_agree`, …): no plain-number parameter; the keys collected from the reactions (`createKeys`: unique keys in reaction
+    order, a string key only if it has no `parameter_expressions` entry) and the CSTR keys are pairwise distinct; `'time'` and
+    `'t'` are not used as names; no key that is read raw (active reactant, `Symbol` argument, CSTR key) is a
+    `parameter_expressions` key; every active reactant is a substance; every substance takes part in some reaction or the tank
+    is fed; the constants are sympy numbers.  Unlike `get_odesys` no name-clash condition is needed — `_create_odesys` never
+    checks one (the listed finding `_create_odesys:substance-named-like-parameter-key`). -/
+theorem create_odesys_accepts (cfg : Cfg') (sys : Sys) (hpe : (dkeys cfg.paramExprs).Nodup)
+    (hnoraw : ∀ r ∈ sys.rxns, ∀ k, r.param ≠ .raw k)
+    (hkeys : (createKeys cfg.paramExprs sys.rxns ++ cstrKeys (cstrOf cfg.cstr sys.subst)).Nodup)
+    (htime : "time" ∉ sys.subst ∧ "time" ∉ createKeys cfg.paramExprs sys.rxns ++ cstrKeys (cstrOf cfg.cstr sys.subst) ∧
+      "time" ∉ referenced sys.rxns ∧ "time" ∉ dkeys cfg.paramExprs)
+    (ht : "t" ∉ sys.subst ∧ "t" ∉ createKeys cfg.paramExprs sys.rxns ++ cstrKeys (cstrOf cfg.cstr sys.subst))
+    (hraw : ∀ k ∈ rawReads sys.rxns (cstrOf cfg.cstr sys.subst), k ∉ dkeys cfg.paramExprs)
+    (hreac : ∀ r ∈ sys.rxns, ∀ j ∈ dkeys r.reac, j ∈ sys.subst)
+    (hpart : cfg.cstr = true ∨ ∀ s ∈ sys.subst, ∃ r ∈ sys.rxns, s ∈ speciesOf r)
+    (hpy : cfg.pyNums = false) : ∃ o, buildRhs' cfg sys = .ok o :=
+  buildRhs'_accepts cfg sys hpe hnoraw hkeys htime ht hraw hreac hpart hpy
+
+/-- **Necessary conditions of acceptance by `_create_odesys`**: the key collection succeeded (so no plain-number parameter), the
+    collected keys and CSTR keys are pairwise distinct and are exactly the parameter names in that order, `'time'` is not among
+    them, and no raw-read key is a `parameter_expressions` key. -/
+theorem create_odesys_accepted_implies (cfg : Cfg') (sys : Sys) (o : OdeSys') (h : buildRhs' cfg sys = .ok o) :
+    ∃ ks, collectKeys cfg.paramExprs sys.rxns = .ok ks ∧
+      o.paramNames = ks ++ cstrKeys (cstrOf cfg.cstr sys.subst) ∧ o.paramNames.Nodup ∧ "time" ∉ o.paramNames ∧
+      (∀ k ∈ rawReads sys.rxns (cstrOf cfg.cstr sys.subst), dmem cfg.paramExprs k = false) ∧ o.names = sys.subst := by
+  obtain ⟨ks, hks, hnd, htime, hraw, rs, exprs, _, _, ho⟩ := buildRhs'_ok h
+  subst ho
+  exact ⟨ks, hks, rfl, hnd, htime, hraw, rfl⟩
+
 /-! ### Parameter names -/
 
 /-- **The exposed parameter names.**  For every accepted build of `get_odesys`:
@@ -543,6 +589,57 @@ theorem plain_dict_symbols_bind_by_key (u : UCfg') (ks : List String) (sys : Sys
     (¬ (∀ k ∈ sys.subst, k ∈ ks) → ∀ o, buildRhs'P u (some ks) sys ≠ .ok o) ∧ buildRhs'P u none sys = buildRhs'U u sys :=
   buildRhs'P_plain u ks sys
 
+/-- **`get_odesys` with a `constants=` object, in the user's terms** (explicit-environment form of `rhsG_is_NT_r` for builds
+    without `Expr`-valued substitutions): the accepted build evaluates to `kineticRhs` of the user's data, where the parameter
+    keys provided by `constants` read the constants' values — `kOf`/`pval` over `substitutions ∪ {pk: constants.pk}`.  No
+    `mkVarsG`, no `cval` in the statement; `noCapture` is taken over all effective substitution keys. -/
+theorem constants_kinetic_model (g : GCfg) (sys : Sys) (o : OdeSys) (ha : g.active = []) (hnd : sys.subst.Nodup)
+    (hsub : (dkeys (g.subs ++ usedConsts g sys.subst)).Nodup) (h : buildRhsG g sys = .ok o)
+    (hnc : noCapture sys (dkeys (g.subs ++ usedConsts g sys.subst)) g.cstr = true) (env : String → R)
+    (hbind : g.includeParams = false → ∀ r ∈ sys.rxns, ∀ uk k, r.param = .named uk k →
+      uk ∉ dkeys (g.subs ++ usedConsts g sys.subst) → env uk = algebraMap ℚ R k) :
+    o.names = sys.subst ∧ o.exprs.length = sys.subst.length ∧
+      ∀ (i : ℕ) (s : String), sys.subst[i]? = some s → ∃ e, o.exprs[i]? = some e ∧
+        ev env e = kineticRhs (g.subs ++ usedConsts g sys.subst) g.cstr env sys.rxns s := by
+  have hukC : ∀ uk ∈ oriUk sys.rxns, uk ∉ cstrKeys (cstrOf g.cstr sys.subst) := ((noCapture_iff _ _ _).mp hnc).2.2.2.2
+  rw [constants_are_substitutions g sys ha hukC,
+    buildRhsG_plain (constsAsSubs g sys) sys (by simpa [constsAsSubs] using ha) rfl] at h
+  obtain ⟨h1, h2, _, h4⟩ := rhs_is_kinetic_model (constsAsSubs g sys).toCfg sys o hnd hsub h hnc env hbind
+  exact ⟨h1, h2, h4⟩
+
+/-! ### Linear invariants of the generated right-hand sides -/
+
+/-- **Every linear invariant of the stoichiometry is an invariant of the GENERATED right-hand side.**  Let `w` weigh the
+    substances (a composition row of `composition_balance_vectors()`, a charge vector, any conserved moiety) such that every
+    reaction conserves it: `Σ_s w_s · netOf r s = 0`.  Then for every build accepted by `get_odesys` without CSTR feed and
+    without captured names, and every binding `env` (exposed named constants bound to their stored values):
+    `Σ_s w_s · ev env (exprs[s]) = 0` — an identity in concentrations and free parameters, on `odesys.exprs` themselves.
+    (C05's `generated_rhs_conserves` instantiates `w` with the composition vectors of a system accepted by `check_balance`; with
+    a feed the invariant is, correctly, not conserved: `cstr = false` is needed.) -/
+theorem generated_rhs_conserves_weights (cfg : Cfg) (sys : Sys) (o : OdeSys) (hnd : sys.subst.Nodup)
+    (hsub : (dkeys cfg.subs).Nodup) (h : buildRhs cfg sys = .ok o) (hnc : noCapture sys (dkeys cfg.subs) cfg.cstr = true)
+    (hcstr : cfg.cstr = false) (env : String → R)
+    (hbind : cfg.includeParams = false → ∀ r ∈ sys.rxns, ∀ uk k, r.param = .named uk k → uk ∉ dkeys cfg.subs →
+      env uk = algebraMap ℚ R k)
+    (w : String → R) (hbal : ∀ r ∈ sys.rxns, (sys.subst.map fun s => w s * ((netOf r s : ℤ) : R)).sum = 0) :
+    (List.zipWith (fun s e => w s * ev env e) sys.subst o.exprs).sum = 0 := by
+  obtain ⟨_, hl, _, hi⟩ := rhs_is_kinetic_model cfg sys o hnd hsub h hnc env hbind
+  have hmap : o.exprs.map (ev env) = sys.subst.map (kineticRhs cfg.subs cfg.cstr env sys.rxns) :=
+    map_eq_of_getElem? o.exprs sys.subst (ev env) _ hl hi
+  have hz : List.zipWith (fun s e => w s * ev env e) sys.subst o.exprs =
+      sys.subst.map fun s => w s *
+        (sys.rxns.map fun r => ((netOf r s : ℤ) : R) *
+          (kOf cfg.subs env r.param * (r.reac.map fun jν => env jν.1 ^ jν.2).prod)).sum := by
+    have h1 : List.zipWith (fun s e => w s * ev env e) sys.subst o.exprs =
+        List.zipWith (fun s v => w s * v) sys.subst (o.exprs.map (ev env)) := by
+      rw [List.zipWith_map_right]
+    rw [h1, hmap, List.zipWith_map_right, List.zipWith_self]
+    apply List.map_congr_left
+    intro s _
+    simp [kineticRhs, hcstr]
+  rw [hz]
+  exact weighted_kinetic_sum_zero sys.subst id w sys.rxns _ hbal
+
 /-! ### The precondition on shared keys is necessary, and the hypotheses are satisfiable -/
 
 /-- `A -> B` with `MassAction([5], unique_keys=['k'])` and `B -> A` with `MassAction([7], unique_keys=['k'])`: the two
@@ -666,5 +763,44 @@ example : buildRhs'P { cfg := {} } (some ["D", "B", "A", "C"]) { exSys with rxns
       buildRhs'U { cfg := {} } { exSys with rxns := exSys.rxns.drop 1 } ∧
     buildRhs'P { paramKeys := some (true, ["k2", "k3", "k4"]) } (some ["D", "B", "A"]) exSys = .error .keyError := by
   constructor <;> rfl
+
+/-- non-vacuity of `generated_rhs_conserves_weights`: in `A ⇌ B` (named constants `kf`, `kb`) the total `A + B` is conserved by
+    both reactions (weights `1, 1`), the free build is accepted and captures no name -/
+example : ∃ o, buildRhs { includeParams := false }
+      { subst := ["A", "B"], rxns := [{ reac := [("A", 1)], prod := [("B", 1)], param := .named "kf" 3 },
+                                      { reac := [("B", 1)], prod := [("A", 1)], param := .named "kb" 7 }] } = .ok o ∧
+    noCapture { subst := ["A", "B"], rxns := [{ reac := [("A", 1)], prod := [("B", 1)], param := .named "kf" 3 },
+                                             { reac := [("B", 1)], prod := [("A", 1)], param := .named "kb" 7 }] } [] false = true ∧
+    (∀ r ∈ ([{ reac := [("A", 1)], prod := [("B", 1)], param := .named "kf" 3 },
+             { reac := [("B", 1)], prod := [("A", 1)], param := .named "kb" 7 }] : List Rxn),
+      ((["A", "B"].map fun s => (1 : ℚ) * ((netOf r s : ℤ) : ℚ)).sum = 0)) := by
+  refine ⟨_, rfl, by decide +kernel, ?_⟩
+  intro r hr
+  simp only [List.mem_cons, List.not_mem_nil, or_false] at hr
+  rcases hr with rfl | rfl <;> decide +kernel
+
+/-- non-vacuity of `constants_kinetic_model`: `exConsts` (flow and one feed concentration from `constants=`) is accepted, has no
+    active substitution, distinct effective substitution keys `k3, k4, feedratio, fc_B` and captures no name -/
+example : (∃ o, buildRhsG exConsts exSys = .ok o) ∧ exConsts.active = [] ∧
+    dkeys (exConsts.subs ++ usedConsts exConsts exSys.subst) = ["k3", "k4", "feedratio", "fc_B"] ∧
+    noCapture exSys (dkeys (exConsts.subs ++ usedConsts exConsts exSys.subst)) exConsts.cstr = true := by
+  refine ⟨⟨_, rfl⟩, rfl, ?_, ?_⟩ <;> decide +kernel
+
+/-- the example system with `MassAction([3/2])` for the plain number, as used for `builders_agree` -/
+def exSysMa : Sys :=
+  { subst := ["A", "B", "C", "D"],
+    rxns := [{ reac := [("A", 2), ("B", 1)], prod := [("C", 1)], param := .ma (3/2) },
+             { reac := [("C", 1)], prod := [("A", 1)], param := .named "k2" 5 },
+             { reac := [("B", 1)], prod := [("D", 1)], param := .key "k3" },
+             { reac := [("D", 1)], prod := [("B", 1)], param := .sym "k4" }] }
+
+/-- the hypotheses of `create_odesys_accepts` hold for it as a stirred tank with `parameter_expressions = {k3: 7}` -/
+example : ∃ o, buildRhs' { cstr := true, paramExprs := [("k3", 7)] } exSysMa = .ok o :=
+  create_odesys_accepts _ _ (by decide)
+    (by
+      intro r hr k hk
+      simp only [exSysMa, List.mem_cons, List.not_mem_nil, or_false] at hr
+      rcases hr with rfl | rfl | rfl | rfl <;> cases hk)
+    (by decide +kernel) (by decide +kernel) (by decide +kernel) (by decide +kernel) (by decide +kernel) (Or.inl rfl) rfl
 
 end ChemModel.C04
